@@ -16,19 +16,13 @@ theorem startsWith_slashes_iff (u : Str) :
     · rintro ⟨h1, h2⟩; exact ⟨r, by rw [← h1, ← h2]⟩
     · rintro ⟨r', h⟩; injection h with h1 h; injection h with h2 h; exact ⟨h1.symm, h2.symm⟩
 
-theorem protoSepLen_full (r : Str) : protoSepLen (sepFull ++ r) = some 3 := by
-  simp [protoSepLen, sepFull, startsWith, List.isPrefixOf]
-
-theorem protoSepLen_slashes (r : Str) : protoSepLen ('/' :: '/' :: r) = some 2 := by
-  simp [protoSepLen, startsWith, List.isPrefixOf]
-
 theorem colon_not_alpha : isAsciiAlpha ':' = false := by decide
 theorem slash_not_alpha : isAsciiAlpha '/' = false := by decide
 
 /-- a protocol followed by `://` is recognised again, with the expected length -/
 theorem protoLen_proto_sep (q r : Str) (h : AlphaProto q) :
     protoLen (q ++ sepFull ++ r) = some (q.length + 3) := by
-  obtain ⟨_, hall, hlen⟩ := h
+  obtain ⟨hne, hall, hlen⟩ := h
   unfold protoLen
   have hall' : ∀ a ∈ q, isAsciiAlpha a = true := hall
   rw [List.append_assoc, List.takeWhile_append_of_pos hall', List.dropWhile_append_of_pos hall']
@@ -36,12 +30,14 @@ theorem protoLen_proto_sep (q r : Str) (h : AlphaProto q) :
     simp [sepFull, colon_not_alpha]
   have h2 : List.dropWhile isAsciiAlpha (sepFull ++ r) = sepFull ++ r := by
     simp [sepFull, colon_not_alpha]
-  rw [h1, h2, protoSepLen_full]
-  simp [protoMaxLetters, hlen]
+  rw [h1, h2]
+  have hq : q.length ≠ 0 := by
+    intro h0; exact hne (List.eq_nil_of_length_eq_zero h0)
+  simp [protoMaxLetters, hlen, hq, sepFull, startsWith, List.isPrefixOf]
 
 theorem protoLen_slashes (r : Str) : protoLen ('/' :: '/' :: r) = some 2 := by
   unfold protoLen
-  simp [slash_not_alpha, protoSepLen_slashes, protoMaxLetters]
+  simp [slash_not_alpha, startsWith, List.isPrefixOf]
 
 /-- a non-empty alphabetic prefix prevents a string from starting with `//` -/
 theorem not_startsWith_slashes_of_alpha (q x : Str) (h : AlphaProto q) :
